@@ -392,15 +392,7 @@ pub fn run(tier: Tier) -> i32 {
     let l = super::large::LargeCoords { errors: true };
     run.replays("large-coordinates", &l);
     run.generated("large-coordinates", &l, tier.pick(300, 6_000));
-    let b = super::large::Beyond4G { errors: true, variants: if tier == Tier::Quick { &[0] } else { &[0, 0, 1, 2] } };
-    run.replays("beyond-4-gib", &b);
-    let old_limit = std::env::var("VERIF_CASE_TIMEOUT").ok();
-    std::env::set_var("VERIF_CASE_TIMEOUT", "2400");
-    run.generated("beyond-4-gib", &b, tier.pick(2, 8));
-    match old_limit {
-        Some(v) => std::env::set_var("VERIF_CASE_TIMEOUT", v),
-        None => std::env::remove_var("VERIF_CASE_TIMEOUT"),
-    }
+    super::large::run_beyond(&mut run, true);
     run.finish(&format!("{} {}", RULE, super::large::RULE_LARGE), &["reference model M_fa/M_fq defines the true line, byte and lengths", "the message format itself is not prescribed: only the presence of the values is checked"])
 }
 
